@@ -137,6 +137,11 @@ def random_processes(rng, L, nmax=4, allow_long=True):
             s = int(rng.integers(0, L - 2))
             t = int(rng.integers(s + 2, L))
             procs.append({"name": str(rng.choice(TWO_LONG)), "sites": [s, t], "strength": g})
+    # user-defined one-site operators sharing ONE label and ONE strength but not their matrix (decay here, something else there)
+    if rng.random() < 0.2:
+        g = float(rng.choice([0.1, 0.3, 0.7]))
+        for st_ in rng.permutation(L)[: min(L, 2)]:
+            procs.insert(int(rng.integers(0, len(procs) + 1)), {"name": "custom", "sites": [int(st_)], "strength": g, "mseed": int(rng.integers(1, 10**6))})
     # a legal corner: some processes with strength exactly 0 (NoiseModel.sample clamps negative draws to 0), anywhere in the list
     if len(procs) >= 2 and rng.random() < 0.2:
         k = int(rng.integers(0, len(procs) - 1))
@@ -144,10 +149,35 @@ def random_processes(rng, L, nmax=4, allow_long=True):
     return procs
 
 
+def custom_matrix(mseed):
+    """the one-site jump operator a user supplies under a label of their own (deterministic in the seed; generic, not Hermitian)"""
+    # a weighted exchange a|0><1| + b|1><0| (decay and heating with different amplitudes): not Hermitian, different for every seed, and
+    # L^+L is diagonal, so that the damping factors of all processes commute and the order of the sweep does not enter the reference
+    r = np.random.default_rng(mseed)
+    a, b = (r.uniform(0.3, 1.2) * np.exp(1j * r.uniform(0, 2 * np.pi)) for _ in range(2))
+    return np.array([[0, a], [b, 0]], dtype=complex)
+
+
+def nm_procs(procs, scale=1.0):
+    """process dicts for NoiseModel: user-defined operators (key 'mseed') get their matrix; strengths optionally rescaled"""
+    out = []
+    for p in procs:
+        q = {k: v for k, v in p.items() if k != "mseed"}
+        if "mseed" in p:
+            q["matrix"] = custom_matrix(p["mseed"])
+        q["strength"] = p["strength"] * scale
+        out.append(q)
+    return out
+
+
 def dense_op(proc, L):
     from mqt.yaqs.core.data_structures.noise_model import NoiseModel
 
     sites = proc["sites"]
+    if "mseed" in proc:
+        return dense.op_on(L, {sites[0]: custom_matrix(proc["mseed"])})
+    if "matrix" in proc and len(sites) == 1 and proc["name"] == "custom":
+        return dense.op_on(L, {sites[0]: np.asarray(proc["matrix"], dtype=complex)})
     if len(sites) == 1:
         return dense.op_on(L, {sites[0]: np.asarray(NoiseModel.get_operator(proc["name"]), dtype=complex)})
     a, b = sites
@@ -177,7 +207,7 @@ def dissipation_case(rng, L, local_dt=None):
         procs += [{"name": nm_, "sites": [int(q)], "strength": 0.3} for q in rng.choice(L, size=min(L, int(rng.integers(2, 4))), replace=False)]
     for k, p in enumerate(procs):
         p["strength"] = float(p["strength"]) + 0.013 * (k + 1)
-    nm = NoiseModel([dict(p) for p in procs])
+    nm = NoiseModel(nm_procs(procs))
     mps = random_mps(rng, L, 3)
     v = dense.mps_dense(mps)
     dt = float(local_dt if local_dt is not None else rng.choice([0.1, 0.05, 0.5]))
@@ -235,7 +265,7 @@ def mcwf_operators_case(rng, L):
             p["strength"] = float(p["strength"]) + 0.017 * (k + 1)
     if rng.random() < 0.5:
         procs.insert(int(rng.integers(0, len(procs) + 1)), {"name": str(rng.choice(["pauli_z", "lowering"])), "sites": [int(rng.integers(0, L))], "strength": 0.0})
-    nm = NoiseModel([dict(p) for p in procs])
+    nm = NoiseModel(nm_procs(procs))
     J, g = float(rng.uniform(0.3, 1.2)), float(rng.uniform(0.3, 1.0))
     par = AnalogSimParams([Observable("z", 0)], elapsed_time=0.1, dt=0.1, solver="MCWF", show_progress=False)
     ctx = preprocess_mcwf(MPS(L, state="zeros"), MPO.ising(L, J, g), nm, par)
@@ -270,7 +300,7 @@ def lottery_case(rng, L):
                                                                 {"name": "pauli_z", "sites": [L - 1], "strength": 0.2}]
     if all(p["strength"] == 0 for p in procs):  # the lottery is only ever run for a model with some positive strength
         procs[0]["strength"] = 0.3
-    nm = NoiseModel([dict(p) for p in procs])
+    nm = NoiseModel(nm_procs(procs))
     mps = random_mps(rng, L, 3)
     scale = float(rng.uniform(0.6, 1.0))
     mps.tensors[0] = mps.tensors[0] * scale  # a state after dissipation is sub-normalised
